@@ -152,3 +152,147 @@ def float_keyed_collections(repo, rep, rule, prefixes):
                      "the watershed found is dropped and its bins belong to no partition", anchor=f"value-keyed:{fi.short}")
     rep.ok(rule, "partition code", f"{n} functions", "no dict keyed by a computed statistic")
     rep.floor(rule, "functions scanned", n, 15)
+
+
+# ---------------------------------------------------------------------------------------------------------------------
+CONVERTERS = ("wavespectra.input.ww3.from_ww3", "wavespectra.input.ncswan.from_ncswan", "wavespectra.input.wwm.from_wwm",
+              "wavespectra.input.era5.from_era5", "wavespectra.input.ndbc.from_ndbc")
+_META = ("attrs", "encoding", "values", "data", "dtype")
+_MASKS = ("where", "clip", "fillna", "mask", "dropna")
+
+
+def converters_unconditional_linear(repo, rep, rule):
+    """Model-native converters: (a) the conversion of the density and the re-labelling of the spectral coordinates (going-to -> coming-from turn,
+    rad -> deg, sigma -> f) may depend on WHICH variables are present and on the function's arguments, never on metadata or data values (a file
+    or an in-memory dataset without that attribute would silently keep its native convention); (b) the density is mapped linearly: no where /
+    clip / fillna on it (a mask with a strict bound turns exact zeros into NaN)."""
+    nconv = 0
+    for q in CONVERTERS:
+        fi = repo.try_func(q)
+        if fi is None:
+            raise AnalysisError(f"{rule}: {q} vanished")
+        spec_names = ("SPECNAME", "DIRNAME", "FREQNAME")
+
+        def is_conv(s):
+            if isinstance(s, ast.Assign):
+                txt = unparse(s)
+                tgt = unparse(s.targets[0])
+                if any(f"attrs.{n}" in tgt for n in ("SPECNAME",)) and "[" in tgt:
+                    return "density"
+                if isinstance(s.value, ast.Call) and unparse(s.value.func).endswith("assign_coords") and any(f"attrs.{n}" in txt for n in ("DIRNAME", "FREQNAME")):
+                    return "coordinate"
+            return None
+
+        def walk(stmts, tests):
+            nonlocal nconv
+            for s in stmts:
+                kind = is_conv(s)
+                if kind:
+                    nconv += 1
+                    bad = [t for t in tests if any(isinstance(x, ast.Attribute) and x.attr in _META for x in ast.walk(t))
+                           or any(isinstance(x, ast.Call) and isinstance(x.func, ast.Attribute) and x.func.attr in ("get", "max", "min", "any", "all", "item") for x in ast.walk(t))]
+                    if bad:
+                        rep.fail(rule, fi.file, s.lineno, fi.qualname, f"if {unparse(bad[0])[:70]}: {unparse(s)[:60]}",
+                                 f"the {kind} conversion is applied only when a test on metadata / data values holds: a native dataset for which it does not (no such "
+                                 "attribute, another spelling) silently keeps its native convention - e.g. going-to directions reported as coming-from",
+                                 anchor=f"conditional-conversion:{fi.name}:{kind}")
+                    else:
+                        rep.ok(rule, f"{fi.file}:{s.lineno} {fi.name}", unparse(s)[:70], "unconditional, or guarded by the presence of variables / arguments only")
+                    if kind == "density":
+                        m = [unparse(c.func).split(".")[-1] for c in ast.walk(s.value) if isinstance(c, ast.Call) and unparse(c.func).split(".")[-1] in _MASKS]
+                        # follow one level of local names
+                        for nme in [x.id for x in ast.walk(s.value) if isinstance(x, ast.Name)]:
+                            for d in ast.walk(fi.node):
+                                if isinstance(d, ast.Assign) and len(d.targets) == 1 and isinstance(d.targets[0], ast.Name) and d.targets[0].id == nme:
+                                    m += [unparse(c.func).split(".")[-1] for c in ast.walk(d.value) if isinstance(c, ast.Call) and unparse(c.func).split(".")[-1] in _MASKS]
+                        if m:
+                            rep.fail(rule, fi.file, s.lineno, fi.qualname, unparse(s)[:100],
+                                     f"the native density passes through {m[0]}(): the conversion has to be linear (a constant factor); a value mask drops valid "
+                                     "densities (a strict lower bound turns every exact zero into NaN)", anchor=f"masked-conversion:{fi.name}")
+                if isinstance(s, ast.If):
+                    walk(s.body, tests + [s.test])
+                    walk(s.orelse, tests + [s.test])
+                elif isinstance(s, (ast.For, ast.While, ast.With, ast.Try)):
+                    walk(s.body, tests)
+        walk(fi.node.body, [])
+    rep.floor(rule, "density / coordinate conversion statements in the converters", nconv, 5)
+
+
+# ---------------------------------------------------------------------------------------------------------------------
+def is360_on_dataset(repo, rep, rule):
+    """sel_*: the branch that handles 'query given in the other longitude convention than the dataset' is selected by the DATASET's convention:
+    `_is_360` decides it on `dset_lons` (the converted query has no negative values for a box east of Greenwich whatever the dataset uses)."""
+    n = 0
+    for q in ("wavespectra.core.select.sel_bbox", "wavespectra.core.select.sel_nearest", "wavespectra.core.select.sel_idw"):
+        fi = repo.func(q)
+        local = {}
+        for a in ast.walk(fi.node):
+            if isinstance(a, ast.Assign) and len(a.targets) == 1 and isinstance(a.targets[0], ast.Name):
+                local.setdefault(a.targets[0].id, []).append(a.value)
+        for c in ast.walk(fi.node):
+            if isinstance(c, ast.Call) and isinstance(c.func, ast.Attribute) and c.func.attr == "_is_360" and c.args:
+                n += 1
+                a0 = c.args[0]
+                if isinstance(a0, ast.Name) and len(local.get(a0.id, [])) == 1:
+                    a0 = local[a0.id][0]
+                if isinstance(a0, ast.Attribute) and a0.attr == "dset_lons" or isinstance(a0, ast.Name) and a0.id == "dset_lons":
+                    rep.ok(rule, f"{fi.file}:{c.lineno} {fi.short}", unparse(c), "convention detected on the dataset's longitudes")
+                else:
+                    rep.fail(rule, fi.file, c.lineno, fi.qualname, unparse(c)[:90],
+                             f"the longitude convention is detected on '{unparse(a0)[:40]}', not on the dataset's longitudes: a query box without negative longitudes "
+                             "looks like '0-360' whatever the dataset uses, so the wrapped branch runs on a -180..180 dataset and returns the complement",
+                             anchor=f"is360-arg:{fi.short}")
+    rep.floor(rule, "_is_360 decisions in the selectors", n, 1)
+
+
+# ---------------------------------------------------------------------------------------------------------------------
+_NARROW = ("float32", "float16", "int", "int8", "int16", "int32", "int64", "uint8", "uint16", "uint32", "single", "half", "f4", "i4", "i8")
+
+
+def narrowing_cast_on_data(repo, rep, rule, qual):
+    """A narrowing cast inside a transform is applied to a coordinate at most (label bookkeeping), never to the spectra: casting float64 densities to
+    single precision makes a window of one no longer the identity and flushes small densities to zero."""
+    fi = repo.func(qual)
+    n = 0
+    for c in ast.walk(fi.node):
+        if isinstance(c, ast.Call) and isinstance(c.func, ast.Attribute) and c.func.attr == "astype" and c.args:
+            t = unparse(c.args[0]).strip("'\"").split(".")[-1]
+            if t not in _NARROW:
+                continue
+            n += 1
+            r = c.func.value
+            is_coord = isinstance(r, ast.Subscript) and any(k in unparse(r.slice) for k in ("DIRNAME", "FREQNAME", "'dir'", "'freq'")) \
+                or isinstance(r, ast.Attribute) and r.attr in ("dir", "freq")
+            if is_coord:
+                rep.ok(rule, f"{fi.file}:{c.lineno} {fi.short}", unparse(c)[:80], "cast of a coordinate, not of the spectra")
+            else:
+                rep.fail(rule, fi.file, c.lineno, fi.qualname, unparse(c)[:100],
+                         f"the data is cast to {t}: double-precision spectra lose precision (a window of one is not the identity any more, densities below the "
+                         "narrower type's range become 0, i.e. fall below the window minimum)", anchor=f"narrowing-cast:{fi.short}")
+    return n
+
+
+# ---------------------------------------------------------------------------------------------------------------------
+def extent_width(repo, rep, rule, prefixes=("wavespectra.core.npstats", "wavespectra.specarray", "wavespectra.core.xrstats", "wavespectra.core.utils", "wavespectra.partition.")):
+    """A direction bin width is never (max(dir) - min(dir)) / (n - 1): for a sector that straddles north the extent is ~360 whatever the spacing."""
+    def sites(tree):
+        out = []
+        for b in ast.walk(tree):
+            if isinstance(b, ast.BinOp) and isinstance(b.op, ast.Div) and isinstance(b.left, ast.BinOp) and isinstance(b.left.op, ast.Sub):
+                l, r = unparse(b.left.left), unparse(b.left.right)
+                if ("max" in l and "min" in r or "ptp" in l) and "dir" in l.lower() and "dir" in r.lower():
+                    out.append(b)
+        return out
+    if len(sites(ast.parse("dd = (np.max(dir) - np.min(dir)) / (len(dir) - 1)\nx = abs(self.dir.max() - self.dir.min() + dd - 360) < 1"))) != 1:
+        raise AnalysisError(f"{rule}: detector does not fire exactly on its positive example")
+    n = 0
+    for fi in repo.all_funcs():
+        if not fi.module.name.startswith(tuple(prefixes)):
+            continue
+        n += 1
+        for b in sites(fi.node):
+            rep.fail(rule, fi.file, b.lineno, fi.qualname, unparse(b)[:100],
+                     "bin width taken from the extent max(dir) - min(dir): for a direction sector that straddles north (340, 350, 0, 10, 20) the extent is 350 and the "
+                     "width comes out as 87.5 instead of 10; use the circular difference of neighbouring bins", anchor=f"extent-width:{fi.short}")
+    rep.ok(rule, "statistics", f"{n} functions", "no width derived from the extent of the direction axis")
+    rep.floor(rule, "functions scanned", n, 60)
